@@ -191,11 +191,30 @@ func (ef *Filter) Process(ctx context.Context, e *eventlogger.Event) (*eventlogg
 	// since the node will be modifying the event data (aka redact/encrypt), we
 	// need our own copy, otherwise we could be changing the event across other
 	// pipelines and nodes and creating a host of problems and race conditions.
-	dup, err := copystructure.Copy(e)
+	// Only the payload is modified by this node, so only the payload is deep
+	// copied; the other fields of the event are copied as they are. (Deep
+	// copying the whole event also walked into CreatedAt's *time.Location, i.e.
+	// into the time package's shared Local location, without synchronization.)
+	dupPayload, err := copystructure.Copy(e.Payload)
 	if err != nil {
 		return nil, err
 	}
-	e = dup.(*eventlogger.Event)
+	var formatted map[string][]byte
+	if e.Formatted != nil {
+		formatted = make(map[string][]byte, len(e.Formatted))
+		for k, v := range e.Formatted {
+			if v != nil {
+				v = append(make([]byte, 0, len(v)), v...)
+			}
+			formatted[k] = v
+		}
+	}
+	e = &eventlogger.Event{
+		Type:      e.Type,
+		CreatedAt: e.CreatedAt,
+		Formatted: formatted,
+		Payload:   dupPayload,
+	}
 
 	// Get both the value and the type of what the payload points to. Value is
 	// used to mutate underlying data and Type is used to get the name of the
